@@ -1,0 +1,110 @@
+//go:build verif
+
+package gcsizes
+
+// Contracts for the verification machinery in /verif (see /verif/DESIGN.md).
+// This file contains only comments; it is compiled to nothing.
+
+//@ prop C19
+
+// ---- observers of go/types (uninterpreted, pure) ----
+//@ extern (go/types.Type).Underlying() types.Type
+//@   pure
+//@ extern (*go/types.Array).Elem() types.Type
+//@   pure
+//@ extern (*go/types.Array).Len() int64
+//@   pure
+//@ extern (*go/types.Struct).NumFields() int
+//@   pure
+//@   ensures result >= 0
+//@ extern (*go/types.Struct).Field(i int) *types.Var
+//@   pure
+//@   ensures result != nil
+//@ extern (*go/types.object).Type() types.Type
+//@   pure
+//@ extern (*go/types.Basic).Kind() types.BasicKind
+//@   pure
+//@   ensures result >= 0
+
+//@ extern (*go/types.Basic).Info() types.BasicInfo
+//@   pure
+//@   ensures ((result & types.IsComplex) != 0) == isComplexKind(recv.Kind())
+
+//@ func align
+//@   requires x >= 0 && a > 0
+//@   ensures  [ge] result >= x
+//@   ensures  [lt] result < x + a
+//@   ensures  [mult] result % a == 0
+//@   pure
+
+// ---- the compiler's layout rules (TRUSTED specification, transcribed from go/types' gcSizes
+// and cmd/compile/internal/types/size.go, parameterised by word size ws and max alignment ma) ----
+//@ ghost gcSize(ws int64, ma int64, T types.Type) int64
+//@ ghost gcAlign(ws int64, ma int64, T types.Type) int64
+// sizes of basic kinds
+//@ ghost basicSize(ws int64, k types.BasicKind) int64 = (k == types.Bool || k == types.Int8 || k == types.Uint8) ? 1 : ((k == types.Int16 || k == types.Uint16) ? 2 : ((k == types.Int32 || k == types.Uint32 || k == types.Float32) ? 4 : ((k == types.Int64 || k == types.Uint64 || k == types.Float64 || k == types.Complex64) ? 8 : (k == types.Complex128 ? 16 : (k == types.String ? 2 * ws : ws)))))
+// layout of the first i fields of a struct type S: end offset and offset of field i
+//@ ghost gcEnd(ws int64, ma int64, S *types.Struct, i int) int64 = i <= 0 ? 0 : gcOff(ws, ma, S, i-1) + gcSize(ws, ma, S.Field(i-1).Type())
+//@ ghost gcOff(ws int64, ma int64, S *types.Struct, i int) int64 = align(gcEnd(ws, ma, S, i), gcAlign(ws, ma, S.Field(i).Type()))
+//@ ghost gcMaxAlign(ws int64, ma int64, S *types.Struct, i int) int64 = i <= 0 ? 1 : max(gcMaxAlign(ws, ma, S, i-1), gcAlign(ws, ma, S.Field(i-1).Type()))
+//@ ghost isComplexKind(k types.BasicKind) bool = k == types.Complex64 || k == types.Complex128 || k == types.UntypedComplex
+//@ ghost clampAlign(ma int64, a int64) int64 = a < 1 ? 1 : (a > ma ? ma : a)
+//@ group gcspec
+//@ axiom [size_basic]  forall ws int64, ma int64, T types.Type :: {gcSize(ws, ma, T)} istype(T.Underlying(), *types.Basic) ==> gcSize(ws, ma, T) == basicSize(ws, astype(T.Underlying(), *types.Basic).Kind())
+//@ axiom [size_array]  forall ws int64, ma int64, T types.Type :: {gcSize(ws, ma, T)} istype(T.Underlying(), *types.Array) ==> gcSize(ws, ma, T) == (astype(T.Underlying(), *types.Array).Len() == 0 ? 0 : align(gcSize(ws, ma, astype(T.Underlying(), *types.Array).Elem()), gcAlign(ws, ma, astype(T.Underlying(), *types.Array).Elem())) * (astype(T.Underlying(), *types.Array).Len() - 1) + gcSize(ws, ma, astype(T.Underlying(), *types.Array).Elem()))
+//@ axiom [size_slice]  forall ws int64, ma int64, T types.Type :: {gcSize(ws, ma, T)} istype(T.Underlying(), *types.Slice) ==> gcSize(ws, ma, T) == 3 * ws
+//@ axiom [size_iface]  forall ws int64, ma int64, T types.Type :: {gcSize(ws, ma, T)} istype(T.Underlying(), *types.Interface) ==> gcSize(ws, ma, T) == 2 * ws
+// a struct ends after its last field; a trailing zero-size field that is not at offset 0 gets one
+// byte so that its address is inside the struct; the whole is rounded up to the struct's alignment
+//@ axiom [size_struct] forall ws int64, ma int64, T types.Type :: {gcSize(ws, ma, T)} istype(T.Underlying(), *types.Struct) ==> gcSize(ws, ma, T) == (astype(T.Underlying(), *types.Struct).NumFields() == 0 ? 0 : align(gcEnd(ws, ma, astype(T.Underlying(), *types.Struct), astype(T.Underlying(), *types.Struct).NumFields()) + ((gcSize(ws, ma, astype(T.Underlying(), *types.Struct).Field(astype(T.Underlying(), *types.Struct).NumFields()-1).Type()) == 0 && gcOff(ws, ma, astype(T.Underlying(), *types.Struct), astype(T.Underlying(), *types.Struct).NumFields()-1) > 0) ? 1 : 0), gcAlign(ws, ma, T)))
+//@ axiom [size_other]  forall ws int64, ma int64, T types.Type :: {gcSize(ws, ma, T)} !istype(T.Underlying(), *types.Basic) && !istype(T.Underlying(), *types.Array) && !istype(T.Underlying(), *types.Slice) && !istype(T.Underlying(), *types.Interface) && !istype(T.Underlying(), *types.Struct) ==> gcSize(ws, ma, T) == ws
+//@ axiom [align_array]  forall ws int64, ma int64, T types.Type :: {gcAlign(ws, ma, T)} istype(T.Underlying(), *types.Array) ==> gcAlign(ws, ma, T) == gcAlign(ws, ma, astype(T.Underlying(), *types.Array).Elem())
+//@ axiom [align_struct] forall ws int64, ma int64, T types.Type :: {gcAlign(ws, ma, T)} istype(T.Underlying(), *types.Struct) ==> gcAlign(ws, ma, T) == gcMaxAlign(ws, ma, astype(T.Underlying(), *types.Struct), astype(T.Underlying(), *types.Struct).NumFields())
+// complex64/128 are aligned like [2]float32/64; everything else like its size, at least 1, at most ma
+//@ axiom [align_complex] forall ws int64, ma int64, T types.Type :: {gcAlign(ws, ma, T)} istype(T.Underlying(), *types.Basic) && isComplexKind(astype(T.Underlying(), *types.Basic).Kind()) ==> gcAlign(ws, ma, T) == clampAlign(ma, gcSize(ws, ma, T) / 2)
+//@ axiom [align_other]  forall ws int64, ma int64, T types.Type :: {gcAlign(ws, ma, T)} !istype(T.Underlying(), *types.Array) && !istype(T.Underlying(), *types.Struct) && !(istype(T.Underlying(), *types.Basic) && isComplexKind(astype(T.Underlying(), *types.Basic).Kind())) ==> gcAlign(ws, ma, T) == clampAlign(ma, gcSize(ws, ma, T))
+//@ axiom [ranges] forall ws int64, ma int64, T types.Type :: {gcAlign(ws, ma, T)} wfSizes(ws, ma) ==> 1 <= gcAlign(ws, ma, T) && gcAlign(ws, ma, T) <= ma && gcSize(ws, ma, T) >= 0
+//@ group
+
+// supported targets: 64-bit (8, 8) and 32-bit (4, 4) — what ForArch returns except for the
+// obsolete amd64p32
+//@ ghost wfSizes(ws int64, ma int64) bool = (ws == 8 && ma == 8) || (ws == 4 && ma == 4)
+
+// the same layout over a slice of fields (what Offsetsof receives)
+//@ ghost endS(ws int64, ma int64, fs []*types.Var, i int) int64 = i <= 0 ? 0 : offS(ws, ma, fs, i-1) + gcSize(ws, ma, fs[i-1].Type())
+//@ ghost offS(ws int64, ma int64, fs []*types.Var, i int) int64 = align(endS(ws, ma, fs, i), gcAlign(ws, ma, fs[i].Type()))
+
+// Alignof / Sizeof return what the compiler's rules say, for every type.
+//@ func (*Sizes).Alignof
+//@   uses     gcspec
+//@   requires s != nil && wfSizes(s.WordSize, s.MaxAlign)
+//@   pure
+//@   reads    Sizes.WordSize, Sizes.MaxAlign
+//@   ensures  [gc] result == gcAlign(s.WordSize, s.MaxAlign, T)
+//@   loop 1   invariant [fields] len(fields) == i && (forall j int :: {fields[j]} 0 <= j && j < i ==> fields[j] == t.Field(j))
+//@   loop 2   index k
+//@   loop 2   invariant [max] max == gcMaxAlign(s.WordSize, s.MaxAlign, t, k)
+//@ func (*Sizes).Sizeof
+//@   uses     gcspec, offS_is_gcOff
+//@   requires s != nil && wfSizes(s.WordSize, s.MaxAlign)
+//@   pure
+//@   reads    Sizes.WordSize, Sizes.MaxAlign
+//@   ensures  [gc] result == gcSize(s.WordSize, s.MaxAlign, T)
+//@   loop 1   invariant [fields] len(fields) == i && (forall j int :: {fields[j]} 0 <= j && j < i ==> fields[j] == t.Field(j))
+
+// the layout over the slice of a struct's fields is the layout of the struct
+//@ lemma offS_is_gcOff(ws int64, ma int64, S *types.Struct, fs []*types.Var, i int)
+//@   uses     gcspec
+//@   requires 0 <= i && i < len(fs) && len(fs) == S.NumFields() && (forall j int :: {fs[j]} 0 <= j && j < len(fs) ==> fs[j] == S.Field(j))
+//@   ensures  offS(ws, ma, fs, i) == gcOff(ws, ma, S, i) && endS(ws, ma, fs, i) == gcEnd(ws, ma, S, i)
+//@   induct   i
+//@   trigger  offS(ws, ma, fs, i), gcOff(ws, ma, S, i)
+
+//@ func (*Sizes).Offsetsof
+//@   uses     gcspec
+//@   requires s != nil && wfSizes(s.WordSize, s.MaxAlign) && (forall j int :: {fields[j]} 0 <= j && j < len(fields) ==> fields[j] != nil)
+//@   ensures  [len] len(result) == len(fields)
+//@   ensures  [off] forall j int :: {result[j]} 0 <= j && j < len(fields) ==> result[j] == offS(s.WordSize, s.MaxAlign, fields, j) && result[j] >= 0
+//@   loop 1   invariant [o]    o == endS(s.WordSize, s.MaxAlign, fields, i) && o >= 0
+//@   loop 1   invariant [len]  len(offsets) == len(fields)
+//@   loop 1   invariant [done] forall j int :: {offsets[j]} 0 <= j && j < i ==> offsets[j] == offS(s.WordSize, s.MaxAlign, fields, j) && offsets[j] >= 0
